@@ -2,7 +2,7 @@
 Theorems: coq/Props/Properties_C05.v: soundness of the per-transaction monitor automaton (an accepted callback log has
 monotone progress, REQUEST/RESPONSE_COMPLETE at most once, TRANSACTION_COMPLETE only from (complete, complete) and
 last); the completion mechanisms of the model (tx_finalize silent unless both sides complete; completing a complete
-request runs no callback); the full statement is REFUTED (refused CONNECT, F4) by a vm_compute witness.
+request runs no callback); the full statement is REFUTED (response line after body data) by a vm_compute witness; F4 (refused CONNECT) is repaired.
 Tie: the extracted monitor is run on the LIBRARY's callback log for every generated history (captures + request /
 response generators incl. callback scripts and malformed input); model and library are compared on the callback
 sequence and final progress values. A rejection is matched against the listed findings by signature (which hook was
@@ -20,9 +20,10 @@ def classify(case, rej, trace):
     req_stop = any(e.split(":")[-1] in ("2", "3") for e in script.split(";") if e and e != "-")
     ids = set()
     for (tx, hook, rq, rs, fin) in rej:
-        if hook in (18, 14, 20, 15, 16, 12) and (fin == 1 or rs == 6) and (trace & 4):
-            # the early DATA_OTHER return (trace point 2) leaves the completed response attached: later response bytes are
-            # delivered as body data after RESPONSE_COMPLETE, and the transaction is finalised a second time
+        if hook in (18, 14, 20, 15, 16, 12) and (fin == 1 or rs == 6) and (trace & 4) and not req_stop:
+            # (repaired in /repo 6d6bb7e; listed as fixed, so this id is never accepted as known) the early DATA_OTHER return (trace point 2)
+            # left the completed response attached: later response bytes were delivered as body data after RESPONSE_COMPLETE, and the
+            # transaction was finalised a second time
             ids.add("F4-refused-connect-double-complete")
         elif hook == 18 and fin == 1 and req_stop:
             ids.add("stop-then-unmatched-response-double-complete")
@@ -63,7 +64,7 @@ def check(ctx):
                                              "oracle": "Spec/SConnp.v lc_step / chk_C05 (extracted)", "theorem": "Properties_C05.v"})
     # the fixed witnesses of the listed findings, replayed on every run
     W = cp.witnesses()
-    wit = {"F4-refused-connect-double-complete": "c05_F4_refused_connect", "stop-then-unmatched-response-double-complete": "c05_stop_then_unmatched_response",
+    wit = {"stop-then-unmatched-response-double-complete": "c05_stop_then_unmatched_response",
            "response-line-after-body": "c05_line_after_body", "request-data-attached-to-response-only-transaction": "c05_request_data_to_response_only_tx"}
     wc = [W[wit[k]] for k in sorted(wit)]
     wo, _ = sconnp.run_impl(ctx, wc, tag="known")
